@@ -97,15 +97,11 @@ HARNESSES += [
     _hb('c10_base_puredtor', 'B { virtual ~B() = 0; int m; } (no other special member), A : public B without own destructor',
         {'PRESENCE': _presence(4), 'OVERRIDES': 1, 'DTKINDS': '0x10'}, cap=600, tiers=('quick', 'thorough')),
 ] + [
-    # one catalogue entry per presence pattern of B: several patterns in one query exceeded 40 min
-    _hb('c10_base_pv2_%d' % _p, 'B abstract with one more special member (incl. a pure virtual destructor), presence pattern %d; A with and '
-        'without the overrider' % _p, {'PRESENCE': _presence(_p), 'OVERRIDES': 3}) for _p in (9, 12)
-] + [
+    # B with two special members, and abstract B with one more special member, gave no verdict within 40 min per presence
+    # pattern (object limit / time) and are not catalogued; the one-member patterns below and c10_base_pv_ctor /
+    # c10_base_puredtor / c10_base_override are.
     _hb('c10_base_one_%d' % _p, 'B with at most one special member (presence pattern %d), A without f' % _p,
         {'PRESENCE': _presence(_p), 'OVERRIDES': 1}) for _p in (0, 1, 2, 4)
-] + [
-    _hb('c10_base_two_%d' % _p, 'B with two special members (presence pattern %d), A without f' % _p,
-        {'PRESENCE': _presence(_p), 'OVERRIDES': 1}) for _p in (3, 5, 6)
 ]
 
 # The oracle of these harnesses (harness/c10_oracle.h) is hand-written, so it is validated against the compiler:
